@@ -782,6 +782,66 @@ func runC16(c *CaseCtx) (res CaseResult) {
 			}
 		}
 	}
+	// defaults taken from ONE caller-owned list (prefixes of a slice with
+	// spare capacity): calls on one Func must not disturb the defaults of
+	// another Func, nor the caller's list
+	{
+		all := make([]am.Arg, 0, 2*len(ls)+8)
+		base := map[int]int64{}
+		for i, l := range ls {
+			id++
+			base[i] = id
+			v := mk(typeIndex(l.T), id).Interface()
+			if l.Name != "" {
+				all = append(all, am.NamedSubtype(recase(r, l.Name), v, l.Sub))
+			} else {
+				all = append(all, am.TypedSubtype(v, l.Sub))
+			}
+		}
+		k := r.Intn(len(all) + 1)
+		f1, err1 := am.NewFunc(fn.Interface(), all[:k]...)
+		f2, err2 := am.NewFunc(fn.Interface(), all...)
+		if err1 == nil && err2 == nil {
+			// f1 is called with overrides for everything
+			var over []am.Arg
+			for _, l := range ls {
+				id++
+				v := mk(typeIndex(l.T), id).Interface()
+				if l.Name != "" {
+					over = append(over, am.NamedSubtype(recase(r, l.Name), v, l.Sub))
+				} else {
+					over = append(over, am.TypedSubtype(v, l.Sub))
+				}
+			}
+			for rep := 0; rep < 2; rep++ {
+				f1.Call(over...)
+				res.Evals++
+			}
+			for kk := range got {
+				delete(got, kk)
+			}
+			rr := f2.Call()
+			res.Evals++
+			if rr.Err() != nil {
+				res.violate("C16", "defaults-disturbed", "a Func whose defaults satisfy every parameter failed after another Func (sharing the caller's option list) was called: "+firstLine(rr.Err().Error()), det)
+			} else {
+				for i := range ls {
+					amb := false
+					if ls[i].Name == "" {
+						for j := range ls {
+							if j != i && ls[j].T == ls[i].T {
+								amb = true
+							}
+						}
+					}
+					if !amb && got[i] != base[i] {
+						res.violate("C16", "defaults-disturbed", fmt.Sprintf("parameter %v received #%d instead of its default #%d after a call on another Func sharing the caller's option list", ls[i], got[i], base[i]), det)
+					}
+				}
+			}
+			res.obs("shared_default_lists_checked", 1)
+		}
+	}
 	res.NonTrivial = multi || split
 	res.Sample = det
 	return res
